@@ -259,5 +259,8 @@ func NumTasks() int { return runtime.NumGoroutine() }
 
 // WatchBegin/WatchHits/WatchEnd: frame-condition tracking (engine only).
 func WatchBegin(tag string, root any) {}
+func WatchGlobals(pkgPrefix string)    {}
+func WatchReport()                    {}
+func WatchEndTag(tag string)          {}
 func WatchHits() int                  { return 0 }
 func WatchEnd()                       {}
